@@ -1895,6 +1895,100 @@ pub open spec fn vx_tables_ok<R: Registry>(m: IMap<archetype::IdentifierRef<R>, 
         (#[trigger] m[k]).wf() && m[k].key() == k && m[k].agrees(a)
 }
 
+/// `ks` lists every stored table key exactly once
+pub open spec fn vx_enum<R: Registry>(m: IMap<archetype::IdentifierRef<R>, archetype::Archetype<R>>, ks: Seq<archetype::IdentifierRef<R>>) -> bool {
+    &&& forall|i: int, j: int| 0 <= i < j < ks.len() ==> ks[i] != ks[j]
+    &&& forall|k: archetype::IdentifierRef<R>| m.dom().contains(k) == ks.contains(k)
+}
+/// sum of the lengths of the tables under `ks`
+pub open spec fn vx_sum_keys<R: Registry>(m: IMap<archetype::IdentifierRef<R>, archetype::Archetype<R>>, ks: Seq<archetype::IdentifierRef<R>>) -> nat
+    decreases ks.len()
+{
+    if ks.len() == 0 { 0 } else { vx_sum_keys(m, ks.drop_last()) + m[ks.last()].length as nat }
+}
+/// C13: the number of stored entities (rows of all tables; independent of the enumeration, see
+/// lemma_total_rows)
+pub open spec fn vx_total_rows<R: Registry>(m: IMap<archetype::IdentifierRef<R>, archetype::Archetype<R>>) -> nat {
+    vx_sum_keys(m, choose|ks: Seq<archetype::IdentifierRef<R>>| vx_enum(m, ks))
+}
+pub proof fn lemma_sum_remove<R: Registry>(m: IMap<archetype::IdentifierRef<R>, archetype::Archetype<R>>, b: Seq<archetype::IdentifierRef<R>>, j: int)
+    requires 0 <= j < b.len(),
+    ensures vx_sum_keys(m, b) == vx_sum_keys(m, b.remove(j)) + m[b[j]].length as nat
+    decreases b.len()
+{
+    if j == b.len() - 1 {
+        assert(b.remove(j) =~= b.drop_last());
+    } else {
+        assert(b.remove(j).drop_last() =~= b.drop_last().remove(j));
+        assert(b.remove(j).last() == b.last());
+        lemma_sum_remove(m, b.drop_last(), j);
+    }
+}
+pub open spec fn vx_nodup<K>(a: Seq<K>) -> bool { forall|i: int, j: int| 0 <= i < j < a.len() ==> a[i] != a[j] }
+/// two duplicate-free listings of the same key set have the same sum
+pub proof fn lemma_sum_perm<R: Registry>(m: IMap<archetype::IdentifierRef<R>, archetype::Archetype<R>>, a: Seq<archetype::IdentifierRef<R>>, b: Seq<archetype::IdentifierRef<R>>)
+    requires vx_nodup(a), vx_nodup(b), forall|k: archetype::IdentifierRef<R>| a.contains(k) == b.contains(k),
+    ensures vx_sum_keys(m, a) == vx_sum_keys(m, b)
+    decreases a.len()
+{
+    if a.len() == 0 {
+        if b.len() > 0 { assert(b.contains(b[0])); assert(a.contains(b[0])); }
+    } else {
+        let x = a.last();
+        assert(a.contains(x));
+        assert(b.contains(x));
+        let j = choose|j: int| 0 <= j < b.len() && b[j] == x;
+        let a1 = a.drop_last();
+        let b1 = b.remove(j);
+        assert(vx_nodup(a1));
+        assert(vx_nodup(b1)) by {
+            assert forall|p: int, q: int| 0 <= p < q < b1.len() implies b1[p] != b1[q] by {
+                let pp = if p < j { p } else { p + 1 };
+                let qq = if q < j { q } else { q + 1 };
+                assert(b1[p] == b[pp] && b1[q] == b[qq]);
+            }
+        }
+        assert forall|k: archetype::IdentifierRef<R>| a1.contains(k) == b1.contains(k) by {
+            if a1.contains(k) {
+                let p = choose|p: int| 0 <= p < a1.len() && a1[p] == k;
+                assert(a[p] == k); assert(k != x);
+                assert(a.contains(k)); assert(b.contains(k));
+                let q = choose|q: int| 0 <= q < b.len() && b[q] == k;
+                assert(q != j);
+                let qq = if q < j { q } else { q - 1 };
+                assert(b1[qq] == k);
+            }
+            if b1.contains(k) {
+                let q = choose|q: int| 0 <= q < b1.len() && b1[q] == k;
+                let qq = if q < j { q } else { q + 1 };
+                assert(b[qq] == k); assert(qq != j); assert(k != x);
+                assert(b.contains(k)); assert(a.contains(k));
+                let p = choose|p: int| 0 <= p < a.len() && a[p] == k;
+                assert(p != a.len() - 1);
+                assert(a1[p] == k);
+            }
+        }
+        lemma_sum_perm(m, a1, b1);
+        lemma_sum_remove(m, b, j);
+    }
+}
+pub proof fn lemma_total_rows<R: Registry>(m: IMap<archetype::IdentifierRef<R>, archetype::Archetype<R>>, ks: Seq<archetype::IdentifierRef<R>>)
+    requires vx_enum(m, ks),
+    ensures vx_total_rows(m) == vx_sum_keys(m, ks)
+{
+    let c = choose|c: Seq<archetype::IdentifierRef<R>>| vx_enum(m, c);
+    assert(vx_enum(m, c));
+    assert forall|k: archetype::IdentifierRef<R>| c.contains(k) == ks.contains(k) by { assert(m.dom().contains(k) == c.contains(k)); }
+    lemma_sum_perm(m, c, ks);
+}
+pub proof fn lemma_sum_take_step<R: Registry>(m: IMap<archetype::IdentifierRef<R>, archetype::Archetype<R>>, ks: Seq<archetype::IdentifierRef<R>>, n: int)
+    requires 0 <= n < ks.len(),
+    ensures vx_sum_keys(m, ks.take(n + 1)) == vx_sum_keys(m, ks.take(n)) + m[ks[n]].length as nat
+{
+    assert(ks.take(n + 1).drop_last() =~= ks.take(n));
+    assert(ks.take(n + 1).last() == ks[n]);
+}
+
 pub mod entities {
     use super::*;
 pub struct Batch<Entities> {
@@ -2956,10 +3050,31 @@ impl<R: Registry> VxTableSeq<R> {
 #[verifier::external_body]
 pub fn vx_custom_error() -> (e: VxErr) { unimplemented!() }
 
+/// sum of the lengths of the tables read so far
+pub open spec fn vx_sum_tables<R: Registry>(ts: Seq<archetype::Archetype<R>>) -> nat
+    decreases ts.len()
+{
+    if ts.len() == 0 { 0 } else { vx_sum_tables(ts.drop_last()) + ts.last().length as nat }
+}
+pub open spec fn vx_keys_of<R: Registry>(ts: Seq<archetype::Archetype<R>>) -> Seq<archetype::IdentifierRef<R>> {
+    Seq::new(ts.len(), |j: int| ts[j].key())
+}
+pub proof fn lemma_sum_tables_keys<R: Registry>(m: IMap<archetype::IdentifierRef<R>, archetype::Archetype<R>>, ts: Seq<archetype::Archetype<R>>)
+    requires forall|j: int| 0 <= j < ts.len() ==> m[(#[trigger] ts[j]).key()] == ts[j],
+    ensures vx_sum_keys(m, vx_keys_of(ts)) == vx_sum_tables(ts)
+    decreases ts.len()
+{
+    if ts.len() > 0 {
+        assert(vx_keys_of(ts).drop_last() =~= vx_keys_of(ts.drop_last()));
+        assert(vx_keys_of(ts).last() == ts.last().key());
+        lemma_sum_tables_keys(m, ts.drop_last());
+    }
+}
+
 impl<R> Archetypes<R> where R: Registry {
     pub fn vx_visit_seq(len: &mut usize, seq: &mut VxTableSeq<R>) -> (r: Result<Archetypes<R>, VxErr>)
         requires
-            *old(len) == old(seq).total(),
+            *old(len) == old(seq).total() && *old(len) == 0,
             old(seq).yielded().len() == 0,
         ensures
             r is Ok ==> r->Ok_0.wf() && vx_tables_wf(r->Ok_0@),
@@ -2968,6 +3083,7 @@ impl<R> Archetypes<R> where R: Registry {
             r is Ok ==> forall|k: archetype::IdentifierRef<R>| r->Ok_0@.dom().contains(k) ==> (exists|j: int| 0 <= j < final(seq).yielded().len() && (#[trigger] final(seq).yielded()[j]).key() == k),
             r is Ok ==> forall|a: int, b: int| 0 <= a < b < final(seq).yielded().len() ==> vx_key_bits((#[trigger] final(seq).yielded()[a]).key()) != vx_key_bits((#[trigger] final(seq).yielded()[b]).key()),
             r is Ok ==> *final(len) == final(seq).total(),
+            r is Ok ==> *final(len) == vx_total_rows(r->Ok_0@),
     {
 
 let ghost mut vx_prev = seq.yielded();
@@ -2979,6 +3095,7 @@ let ghost mut vx_prev = seq.yielded();
                 vx_prev == seq.yielded(),
                 archetypes.wf() && vx_tables_wf(archetypes@),
                 *len == seq.total(),
+                *len == vx_sum_tables(seq.yielded()),
                 forall|j: int| 0 <= j < seq.yielded().len() ==> archetypes@.dom().contains((#[trigger] seq.yielded()[j]).key()) && archetypes@[seq.yielded()[j].key()] == seq.yielded()[j],
                 forall|k: archetype::IdentifierRef<R>| archetypes@.dom().contains(k) ==> (exists|j: int| 0 <= j < seq.yielded().len() && (#[trigger] seq.yielded()[j]).key() == k),
                 forall|a: int, b: int| 0 <= a < b < seq.yielded().len() ==> vx_key_bits((#[trigger] seq.yielded()[a]).key()) != vx_key_bits((#[trigger] seq.yielded()[b]).key()),
@@ -2993,6 +3110,7 @@ proof {
                         // the table just read went in under its own key; everything else is as before
                         let n = vx_y0.len() as int;
                         assert(vx_y0 == vx_prev.push(vx_new));
+                        assert(vx_y0.drop_last() =~= vx_prev && vx_y0.last() == vx_new);
                         assert(archetypes@ == vx_t0.insert(vx_new.key(), vx_new));
                         assert forall|k: archetype::IdentifierRef<R>| archetypes@.dom().contains(k) implies (exists|j: int| 0 <= j < n && (#[trigger] vx_y0[j]).key() == k) by {
                             if k == vx_new.key() { assert(vx_y0[n - 1].key() == k); }
@@ -3007,9 +3125,69 @@ proof {
                     }
 
                 }
-proof { archetypes.lemma_single_table(); }
+proof { archetypes.lemma_single_table();
+                      let ts = seq.yielded(); let ks = vx_keys_of(ts);
+                      assert forall|a: int, b: int| 0 <= a < b < ks.len() implies ks[a] != ks[b] by { assert(vx_key_bits(ts[a].key()) != vx_key_bits(ts[b].key())); }
+                      assert forall|k: archetype::IdentifierRef<R>| archetypes@.dom().contains(k) == ks.contains(k) by {
+                          if archetypes@.dom().contains(k) { let j = choose|j: int| 0 <= j < ts.len() && (#[trigger] ts[j]).key() == k; assert(ks[j] == k); }
+                          if ks.contains(k) { let j = choose|j: int| 0 <= j < ks.len() && ks[j] == k; assert(archetypes@.dom().contains(ts[j].key())); }
+                      }
+                      lemma_sum_tables_keys(archetypes@, ts);
+                      lemma_total_rows(archetypes@, ks); }
                 Ok(archetypes)
             
+    }
+
+}
+
+
+// ---- R9/A10: the serde Serializer the table set is written to, and the borrowing table iterator
+#[verifier::external_body]
+pub struct VxSeqSerializer { _p: () }
+#[verifier::external_body]
+pub struct VxSeqOk { _p: () }
+pub struct VxTableTok { pub id: int }
+/// the abstract token of a serialized table (K-deser-arch decides the element encoding, bounded)
+pub uninterp spec fn vx_ser_table<R: Registry>(t: archetype::Archetype<R>) -> VxTableTok;
+impl VxSeqOk { pub uninterp spec fn elems(&self) -> Seq<VxTableTok>; }
+#[verifier::external_body]
+#[verifier::accept_recursive_types(R)]
+pub struct VxTableRefIter<'a, R: Registry> { p: PhantomData<&'a R> }
+impl<'a, R: Registry> VxTableRefIter<'a, R> {
+    pub uninterp spec fn rest(&self) -> Seq<archetype::Archetype<R>>;
+    /// A1: `Iterator::filter(p)`: the items `p` accepts, in order
+    #[verifier::external_body]
+    pub fn filter<F: Fn(&&'a archetype::Archetype<R>) -> bool>(self, f: F) -> (r: VxTableRefIter<'a, R>)
+        requires forall|t: &&'a archetype::Archetype<R>| #[trigger] f.requires((t,)),
+        ensures r.rest().len() <= self.rest().len(),
+                forall|j: int| 0 <= j < r.rest().len() ==> exists|i: int| 0 <= i < self.rest().len() && self.rest()[i] == #[trigger] r.rest()[j],
+                (forall|t: &&'a archetype::Archetype<R>| f.ensures((t,), true)) ==> r.rest() == self.rest()
+    { unimplemented!() }
+}
+impl VxSeqSerializer {
+    /// serde `Serializer::is_human_readable()`: any answer
+    #[verifier::external_body]
+    pub fn is_human_readable(&self) -> (r: bool) { unimplemented!() }
+    /// serde `Serializer::collect_seq(iter)`: one element per item of the iterator, in order
+    #[verifier::external_body]
+    pub fn collect_seq<'a, R: Registry>(self, it: VxTableRefIter<'a, R>) -> (r: Result<VxSeqOk, VxErr>)
+        ensures r is Ok ==> r->Ok_0.elems() == Seq::new(it.rest().len(), |j: int| vx_ser_table(it.rest()[j])) { unimplemented!() }
+}
+impl<R: Registry> Archetypes<R> {
+    /// R14/A3: `Archetypes::iter()` (hashbrown RawIter): every stored table once, in some order
+    #[verifier::external_body]
+    pub fn vx_iter<'a>(&'a self) -> (r: VxTableRefIter<'a, R>)
+        ensures exists|ks: Seq<archetype::IdentifierRef<R>>| self.raw_archetypes.enumerates(ks) && r.rest() == Seq::new(ks.len(), |j: int| self@[ks[j]]) { unimplemented!() }
+}
+
+impl<R> Archetypes<R> where R: Registry {
+    pub fn serialize(&self, serializer: VxSeqSerializer) -> (r: Result<VxSeqOk, VxErr>)
+        ensures
+            r is Ok ==> exists|ks: Seq<archetype::IdentifierRef<R>>| self.raw_archetypes.enumerates(ks) && r->Ok_0.elems() == Seq::new(ks.len(), |j: int| vx_ser_table(self@[ks[j]])),
+    {
+
+        serializer.collect_seq(self.vx_iter())
+    
     }
 
 }
@@ -3060,6 +3238,114 @@ proof {
     
     }
 
+}
+
+
+// ---- C16: the relation Archetypes::eq computes (its proved postcondition) is reflexive and
+// symmetric, given that the per-table comparison is (A8: user PartialEq is an equivalence; K-eq:
+// component_eq is pointwise equality of identifiers and cells)
+pub open spec fn vx_archs_eq_spec<R: Registry>(a: Archetypes<R>, b: Archetypes<R>) -> bool {
+    a.raw_archetypes.count() == b.raw_archetypes.count()
+        && forall|k: archetype::IdentifierRef<R>| a@.dom().contains(k) ==> vx_has_equal_partner(#[trigger] a@[k], b@)
+}
+/// A3: a hashbrown table holds finitely many elements; `len()` is their number
+#[verifier::external_body]
+pub proof fn vx_axiom_count<R: Registry>(t: &VxRawTable<R>)
+    ensures exists|ks: Seq<archetype::IdentifierRef<R>>| t.enumerates(ks) && ks.len() == t.count()
+{ }
+/// pigeonhole: an injective map from the elements of a duplicate-free list into the elements of
+/// a duplicate-free list of the same length hits every element
+pub proof fn lemma_injective_onto<K>(a: Seq<K>, b: Seq<K>, g: spec_fn(K) -> K)
+    requires vx_nodup(a), vx_nodup(b), a.len() == b.len(),
+             forall|i: int| 0 <= i < a.len() ==> b.contains(#[trigger] g(a[i])),
+             forall|i: int, j: int| 0 <= i < j < a.len() ==> g(a[i]) != g(a[j]),
+    ensures forall|y: K| b.contains(y) ==> exists|i: int| 0 <= i < a.len() && #[trigger] g(a[i]) == y
+    decreases a.len()
+{
+    if a.len() > 0 {
+        let x = a.last();
+        let gx = g(x);
+        assert(b.contains(g(a[a.len() - 1])));
+        let j = choose|j: int| 0 <= j < b.len() && b[j] == gx;
+        let a1 = a.drop_last();
+        let b1 = b.remove(j);
+        assert(vx_nodup(a1));
+        assert(vx_nodup(b1)) by {
+            assert forall|p: int, q: int| 0 <= p < q < b1.len() implies b1[p] != b1[q] by {
+                let pp = if p < j { p } else { p + 1 };
+                let qq = if q < j { q } else { q + 1 };
+                assert(b1[p] == b[pp] && b1[q] == b[qq]);
+            }
+        }
+        assert forall|i: int| 0 <= i < a1.len() implies b1.contains(#[trigger] g(a1[i])) by {
+            assert(a1[i] == a[i]);
+            assert(b.contains(g(a[i])));
+            let q = choose|q: int| 0 <= q < b.len() && b[q] == g(a[i]);
+            assert(g(a[i]) != g(a[a.len() - 1]));
+            assert(q != j);
+            let qq = if q < j { q } else { q - 1 };
+            assert(b1[qq] == g(a1[i]));
+        }
+        assert forall|i: int, k: int| 0 <= i < k < a1.len() implies g(a1[i]) != g(a1[k]) by { assert(a1[i] == a[i] && a1[k] == a[k]); }
+        lemma_injective_onto(a1, b1, g);
+        assert forall|y: K| b.contains(y) implies exists|i: int| 0 <= i < a.len() && #[trigger] g(a[i]) == y by {
+            let q = choose|q: int| 0 <= q < b.len() && b[q] == y;
+            if q == j { assert(g(a[a.len() - 1]) == y); }
+            else {
+                let qq = if q < j { q } else { q - 1 };
+                assert(b1[qq] == y);
+                assert(b1.contains(y));
+                let i = choose|i: int| 0 <= i < a1.len() && #[trigger] g(a1[i]) == y;
+                assert(a1[i] == a[i]);
+                assert(g(a[i]) == y);
+            }
+        }
+    }
+}
+pub proof fn lemma_archs_eq_reflexive<R: Registry>(a: Archetypes<R>)
+    requires a.wf(), forall|t: archetype::Archetype<R>| #[trigger] vx_tables_eq(t, t),
+    ensures vx_archs_eq_spec(a, a)
+{
+    assert forall|k: archetype::IdentifierRef<R>| a@.dom().contains(k) implies vx_has_equal_partner(#[trigger] a@[k], a@) by {
+        assert(a@[k].key() == k);
+        assert(a@.dom().contains(k) && vx_key_bits(k) == vx_key_bits(a@[k].key()) && vx_tables_eq(a@[k], a@[k]));
+    }
+}
+pub proof fn lemma_archs_eq_symmetric<R: Registry>(a: Archetypes<R>, b: Archetypes<R>)
+    requires a.wf(), b.wf(), vx_archs_eq_spec(a, b),
+             forall|t: archetype::Archetype<R>, u: archetype::Archetype<R>| #[trigger] vx_tables_eq(t, u) ==> vx_tables_eq(u, t),
+    ensures vx_archs_eq_spec(b, a)
+{
+    a.lemma_single_table();
+    vx_axiom_count(&a.raw_archetypes);
+    vx_axiom_count(&b.raw_archetypes);
+    let ka = choose|ks: Seq<archetype::IdentifierRef<R>>| a.raw_archetypes.enumerates(ks) && ks.len() == a.raw_archetypes.count();
+    let kb = choose|ks: Seq<archetype::IdentifierRef<R>>| b.raw_archetypes.enumerates(ks) && ks.len() == b.raw_archetypes.count();
+    let g = |k: archetype::IdentifierRef<R>| choose|k2: archetype::IdentifierRef<R>| b@.dom().contains(k2) && vx_key_bits(k2) == vx_key_bits(a@[k].key()) && vx_tables_eq(a@[k], #[trigger] b@[k2]);
+    assert forall|i: int| 0 <= i < ka.len() implies kb.contains(#[trigger] g(ka[i])) && vx_key_bits(g(ka[i])) == vx_key_bits(ka[i]) && vx_tables_eq(a@[ka[i]], b@[g(ka[i])]) by {
+        assert(ka.contains(ka[i]));
+        assert(a@.dom().contains(ka[i]));
+        assert(vx_has_equal_partner(a@[ka[i]], b@));
+        assert(a@[ka[i]].key() == ka[i]);
+        assert(b@.dom().contains(g(ka[i])));
+    }
+    assert forall|i: int, j: int| 0 <= i < j < ka.len() implies g(ka[i]) != g(ka[j]) by {
+        assert(ka.contains(ka[i]) && ka.contains(ka[j]));
+        if g(ka[i]) == g(ka[j]) {
+            assert(vx_key_bits(ka[i]) == vx_key_bits(ka[j]));
+            assert(ka[i] == ka[j]);
+        }
+    }
+    lemma_injective_onto(ka, kb, g);
+    assert forall|k2: archetype::IdentifierRef<R>| b@.dom().contains(k2) implies vx_has_equal_partner(#[trigger] b@[k2], a@) by {
+        assert(kb.contains(k2));
+        let i = choose|i: int| 0 <= i < ka.len() && #[trigger] g(ka[i]) == k2;
+        let k = ka[i];
+        assert(ka.contains(k));
+        assert(b@[k2].key() == k2);
+        assert(vx_tables_eq(a@[k], b@[k2]));
+        assert(a@.dom().contains(k) && vx_key_bits(k) == vx_key_bits(b@[k2].key()) && vx_tables_eq(b@[k2], a@[k]));
+    }
 }
 
 } // verus!
